@@ -21,7 +21,7 @@ TetMesh ==
            edges |-> << <<0, 1>>, <<1, 2>>, <<2, 0>>, <<2, 3>>, <<3, 0>>, <<3, 1>> >>,
            faces |-> << <<0, 2, 4>>, <<5, 6, 8>>, <<9, 10, 1>>, <<11, 7, 3>> >>,
            cells |-> << <<0, 2, 4, 6>> >>,
-           genus |-> 0, needs_gc |-> FALSE],
+           genus |-> 0, needs_gc |-> FALSE, vbu |-> TRUE, ebu |-> TRUE, fbu |-> TRUE],
    pos |-> << <<0, 0, 0>>, <<2, 0, 0>>, <<0, 2, 0>>, <<0, 0, 2>> >>,
    rp |-> [vi |-> <<3, 10, 17, 24>>, cb |-> <<1>>, mi |-> <<4711>>],
    cache_valid |-> (Hazard # "lazy_cache")]
